@@ -200,7 +200,9 @@ func newRPCEnv(transport, proto string, proc frugal.FProcessor, o rpcOpts) (*rpc
 		if w == 0 {
 			w = 1
 		}
-		srv := frugal.NewFNatsServerBuilder(sconn, proc, pf, []string{subj}).WithWorkerCount(w).Build()
+		// the high watermark is a logging threshold ("a request waited this long in the queue"); a tiny
+		// one makes every queued request exceed it, which must not change what happens to the request
+		srv := frugal.NewFNatsServerBuilder(sconn, proc, pf, []string{subj}).WithWorkerCount(w).WithHighWatermark(time.Millisecond).Build()
 		served := make(chan error, 1)
 		go func() { served <- srv.Serve() }()
 		// Serve subscribes asynchronously; make sure the subscription is at the broker
